@@ -37,7 +37,7 @@ def use_repo():
 # ---------------------------------------------------------------------------------------------------------------------
 # TLA+ value parser (TLC's printed values: records, functions via :> @@, sequences, sets, strings, ints, bools)
 
-_TOK = re.compile(r'\s*(<<|>>|\[|\]|\{|\}|\(|\)|\|->|:>|@@|,|"(?:[^"\\]|\\.)*"|-?\d+|[A-Za-z_][A-Za-z_0-9]*)')
+_TOK = re.compile(r'\s*(<<|>>|\[|\]|\{|\}|\(|\)|\|->|:>|@@|\.\.|,|"(?:[^"\\]|\\.)*"|-?\d+|[A-Za-z_][A-Za-z_0-9]*)')
 
 
 def _tokenize(s):
@@ -118,6 +118,9 @@ class _P:
         if tok in ('TRUE', 'FALSE'):
             return tok == 'TRUE'
         if re.fullmatch(r'-?\d+', tok):
+            if self.peek() == '..':
+                self.eat('..')
+                return frozenset(range(int(tok), int(self.eat()) + 1))
             return int(tok)
         return tok  # model value
 
